@@ -151,6 +151,7 @@ void prop_gen(Ctx &c) {
 		if (std::get<5>(t) < 20) s += ";BYMONTH=" + std::to_string(std::get<6>(t));
 		return s; });
 	rc::check("C09", [&]() {
+		if (c.shrink_exhausted()) return;
 		Case cs; cs.rule = *R(0, 100) < 20 ? *genIncong : *genRule; cs.dtstart = *genStart;
 		std::string txt = ctext(cs);
 		Verdict v = judge(c, cs);
